@@ -76,13 +76,7 @@ def check_case(ctx, cs):
                 ctx.violate(cname + ".evaluate_list", tg + ["tuples_and_ints"], small, {"expected": [fl(exp)], "got": r})
         if sh["rat"]:
             def by_setters():
-                o2 = build(sh)
-                W = [float(fr(q[-1])) for q in sh["P"]]
-                Pu = [[float(fr(x)) / w for x in q[:-1]] for q, w in zip(sh["P"], W)]
-                o2.set_ctrlpts([[c + 1.0 + i for c in q] + [1.0] for i, q in enumerate(Pu)], *sh["size"])      # some other net with unit weights first
-                _ = list(o2.weights), list(o2.ctrlpts)                                                    # (the getters are used in between)
-                o2.weights = list(W)
-                o2.ctrlpts = Pu
+                o2 = build(sh, by_setters=True)
                 return o2.evaluate_single(arg), o2.evaluate_list([arg])[0]
             ok, r = _try(ctx, cname + ".evaluate_single", tg + ["built_by_setters"], small, by_setters)
             if ok and not (close_seq(r[0], exp) and close_seq(r[1], exp)):
